@@ -72,10 +72,9 @@ Proof.
   - apply Qle_bool_iff in E1. rewrite H in E1. apply Qle_bool_iff in E1. congruence.
   - apply Qle_bool_iff in E2. rewrite <- H in E2. apply Qle_bool_iff in E2. congruence.
 Qed.
-Definition end_not_zero (a : attrs) : Prop := or_none (e_end a) = e_end a.
-Lemma act_time_eq t a b : time_eqb (time_of a) (time_of b) = true -> end_not_zero a -> end_not_zero b -> act t a = act t b.
+Lemma act_time_eq t a b : time_eqb (time_of a) (time_of b) = true -> act t a = act t b.
 Proof.
-  unfold time_eqb, time_of, end_not_zero. cbn [fst snd]. intros H Ha Hb. rewrite Ha, Hb in H.
+  unfold time_eqb, time_of. cbn [fst snd]. intros H.
   apply andb_true_iff in H as [H1 H2]. apply Qeq_bool_iff in H1.
   unfold act, resolve, root_interval, is_active. cbn [fst snd].
   assert (Qeq (0 + match e_begin a with Some x => x | None => 0 end) (0 + match e_begin b with Some x => x | None => 0 end))%Q as Eb
@@ -110,7 +109,6 @@ Section Count.
   Hypothesis L : loop_rel c d (keep_styles c (d_initials d)) [] (d_regions d) out.
   Hypothesis Hnd : NoDup (rids (d_regions d)).
   Hypothesis Hids : regions_have_ids d.
-  Hypothesis Hz : forall r, In r (d_regions d) -> end_not_zero (eattrs r).
   Let al := replaced_of out.
   Let regs := d_regions d.
   Let kept := kept_src regs out.
@@ -156,7 +154,7 @@ Section Count.
         rewrite (filter_ext_in _ (fun x => act t (eattrs x) && text_eqb (rid (eattrs x)) (rid (eattrs k)))).
         2:{ intros x _. rewrite (all_eq_head _ _ _ Ea'). unfold alias_of. rewrite El, Hid. reflexivity. }
         rewrite (count_unique (fun R => rid (eattrs R)) (fun R => act t (eattrs R)) kept k Hnk Hk).
-        rewrite (act_time_eq t _ _ Ht (Hz _ (kept_src_in _ _ _ Hk)) (Hz _ HRr)). reflexivity.
+        rewrite (act_time_eq t _ _ Ht). reflexivity.
       + pose proof (combine_kept _ _ _ _ Hp) as Hk. fold regs kept in Hk.
         rewrite (filter_ext_in _ (fun x => act t (eattrs x) && text_eqb (rid (eattrs x)) (rid (eattrs Rr)))).
         2:{ intros x _. rewrite (all_eq_head _ _ _ Ea'). unfold alias_of. rewrite El, Erho. reflexivity. }
